@@ -17,7 +17,7 @@ deriving Inhabited
 /-- Variant switch for the repaired emitter (fix: container fall-through only when the path ends here). -/
 structure GenCfg where
   /-- `true`: the fall-through assignment runs whenever control reaches it (the original emitter). -/
-  fallThroughAlways : Bool := true
+  fallThroughAlways : Bool := false   -- repaired in /repo (fix: Get handed out the enclosing container …)
   /-- `true` (original emitter): the slice index test `len(s) > i` has no lower bound, so a negative
       index reaches `s[i]` and panics (get, compare, set, length, capacity). -/
   negIndexPanics : Bool := false   -- repaired in /repo (fix: negative slice index …)
@@ -101,7 +101,7 @@ deriving Repr, Inhabited
 /-- The configuration that mirrors the tree as it is (flags flip when a `fix:` commit lands). -/
 def GenCfg.repo : GenCfg := {}
 /-- The tree as it was at the pinned commit (1c76ae3), before the `fix:` commits in /repo. -/
-def GenCfg.original : GenCfg := { GenCfg.repo with strAppendsOld := true, negIndexPanics := true, loopRootMapSkipped := true, loopNilKeyPanics := true, nilRootPanics := true, resetNilPtrPanics := true }
+def GenCfg.original : GenCfg := { GenCfg.repo with strAppendsOld := true, negIndexPanics := true, loopRootMapSkipped := true, loopNilKeyPanics := true, nilRootPanics := true, resetNilPtrPanics := true, fallThroughAlways := true }
 /-- Every listed defect repaired: the configuration the property theorems are proved for. -/
 def GenCfg.fixed : GenCfg where
   fallThroughAlways := false
